@@ -17,11 +17,13 @@ pub struct Style {
     pub pi: bool,
     pub swap_cdata: bool, // text <-> CDATA
     pub alt_values: bool, // other attribute values and other non-empty text
+    pub text_last: bool,  // character data after the child elements instead of before them
+    pub entity_text: bool, // text is a reference to an entity declared in the DOCTYPE's internal subset
 }
 
 impl Default for Style {
     fn default() -> Self {
-        Style { short_empty: true, decl: false, doctype: false, comments: false, pi: false, swap_cdata: false, alt_values: false }
+        Style { short_empty: true, decl: false, doctype: false, comments: false, pi: false, swap_cdata: false, alt_values: false, text_last: false, entity_text: false }
     }
 }
 
@@ -30,7 +32,9 @@ pub fn write_doc(root: &Node, st: &Style) -> String {
     if st.decl {
         s.push_str("<?xml version=\"1.0\" encoding=\"UTF-8\"?>");
     }
-    if st.doctype {
+    if st.entity_text {
+        s.push_str("<!DOCTYPE r [<!ENTITY co \"ACME Corp.\">]>");
+    } else if st.doctype {
         s.push_str("<!DOCTYPE r>");
     }
     if st.comments {
@@ -70,21 +74,28 @@ fn write_node(n: &Node, st: &Style, s: &mut String) {
         s.push_str("<!--c-->");
     }
     let t = if st.swap_cdata && n.text != 0 { 3 - n.text } else { n.text };
-    let body = if st.alt_values { "something else" } else { "t" };
+    let body = if st.entity_text { "&co;" } else if st.alt_values { "something &amp; else" } else { "t" };
+    let mut txt = String::new();
     match t {
-        1 => s.push_str(body),
+        1 => txt.push_str(body),
         2 => {
-            s.push_str("<![CDATA[");
-            s.push_str(body);
-            s.push_str("]]>");
+            txt.push_str("<![CDATA[");
+            txt.push_str(if st.entity_text { "co" } else { body });
+            txt.push_str("]]>");
         }
         _ => {}
+    }
+    if !st.text_last {
+        s.push_str(&txt);
     }
     for k in &n.kids {
         if st.pi {
             s.push_str("<?pi x?>");
         }
         write_node(k, st, s);
+    }
+    if st.text_last {
+        s.push_str(&txt);
     }
     s.push_str("</");
     s.push_str(&n.name);
